@@ -33,11 +33,12 @@ def polyval(ctx, coeffs, x, derivative=False):
     if not coeffs:
         return ctx.zero
     p = ctx.convert(coeffs[0])
+    x = ctx.convert(x)
     q = ctx.zero
     for c in coeffs[1:]:
         if derivative:
             q = p + x*q
-        p = c + x*p
+        p = ctx.convert(c) + x*p
     if derivative:
         return p, q
     else:
